@@ -63,7 +63,7 @@ def fromc(v):
 
 
 def is_tuple_like(v):
-    return isinstance(v, (tuple, NewTuple))
+    return isinstance(v, (tuple, NewTuple)) or getattr(v, "_vt_pytype", None) is tuple
 
 
 def build(interp_globals):
@@ -216,7 +216,7 @@ def build(interp_globals):
         for i in items:
             if i is NULL:
                 raise MemSafety("PyTuple_Pack with NULL item")
-            st.incref(i, 1)
+        # the tuple's own references to its items are internal to the container: the caller's balance is unchanged
         return new(tuple(items))
 
     @model
@@ -545,9 +545,7 @@ def build(interp_globals):
         except Exception as e:
             st.from_exception(e)
             return -1
-        st.incref(k, 1)
-        st.incref(v, 1)
-        return 0
+        return 0          # the dict takes its own references; the caller's balance is unchanged
 
     @model
     def m_PyDict_DelItem(d, k):
